@@ -508,6 +508,13 @@ Proof.
   repeat split; auto. intros HH. rewrite <- T. rewrite L in Htot. destruct (Htot HH). lia.
 Qed.
 
+Theorem high_water : forall c disk conv len p iv strict evs,
+  1 <= chunk_size c -> read_params_ok p -> 0 <= len ->
+  let s0 := st_init (op_init false disk conv len [] p iv strict) in
+  run_ok c s0 evs = true ->
+  Forall (fun k => zlen (cbytes k) <= p_high p) (s_calls (run c s0 evs)).
+Proof. intros. now apply read_conservation_high_water. Qed.
+
 (* the step that completes a read flushes everything that was buffered *)
 Theorem read_completion_flushes : forall c disk conv len p iv strict evs,
   1 <= chunk_size c -> read_params_ok p -> 0 <= len ->
@@ -1220,9 +1227,9 @@ Lemma WS_phase sub s ph : WS sub s -> s_phase s <> Completed ->
   (match ph with Performed r => RQ (s_op s) r | Completed => False | _ => True end) -> WS sub (set_phase s ph).
 Proof. intros (B & _) _ H. unfold WS. cbn. split; auto. destruct ph; auto; contradiction. Qed.
 
-Lemma step_WS c sub s e : WS sub s -> wresult_ok c s e -> s_fderr s <> 0 \/ s_fderr s = 0 -> WS sub (step c s e).
+Lemma step_WS c sub s e : WS sub s -> wresult_ok c s e -> WS sub (step c s e).
 Proof.
-  intros H Hok _. pose proof H as (B & P).
+  intros H Hok. pose proof H as (B & P).
   destruct e; cbn [step]; try exact H.
   - (* Check *) destruct (s_phase s) eqn:Ph; try exact H.
     destruct (Z.eqb_spec (get_error (s_closed s) (s_stopped s) (s_fderr s) true) 0) as [G|G]; cbn [negb].
@@ -1267,7 +1274,7 @@ Qed.
 Lemma run_WS c sub evs : forall s, WS sub s -> wrun_ok c s evs -> WS sub (run c s evs).
 Proof.
   induction evs as [|e t IH]; intros s H Hok; simpl; auto.
-  destruct Hok as [H1 H2]. apply IH; auto. apply step_WS; auto. lia.
+  destruct Hok as [H1 H2]. apply IH; auto. apply step_WS; auto.
 Qed.
 
 Lemma WS_init disk conv d p iv strict : 0 <= p_high p ->
